@@ -32,7 +32,10 @@ func (it *vIter) Context() int { return it.ctx }
 func H_C16_PQ() {
 	kMax, lMax := 3, 2
 	if vrt.Thorough() {
-		kMax, lMax = 3, 3
+		kMax, lMax = 4, 2
+		if vrt.Choose("shape", 2) == 1 {
+			kMax, lMax = 3, 3
+		}
 	}
 	k := vrt.Range("inputs", 0, kMax)
 	var its []IteratorWithContext[uint8, uint8, int]
